@@ -72,6 +72,16 @@ def oracle_lines(cfg, ops, real):
         hz = EC.ghost_hazard(ops) if kind == "ghost" else None
         key = D10_KEY if hz is not None else f"C11:double-release:{kind}"
         return (key, f"{kind} optimizer: tokens {dup} handed to the inner optimizer more than once (releases {rel})", {"releases": rel, "ops": ops, "cfg": cfg})
+    # gradients clipped and accumulated for the current logical batch are dropped by nothing but their release:
+    # only a step changes the accumulator, and optimizer.zero_grad clears it only after a release
+    st = [EC.parse_line(l) for l in real]
+    for i, op in enumerate(ops):
+        if i + 1 >= len(st):
+            break
+        a, b = st[i]["sum"].split(":")[0], st[i + 1]["sum"].split(":")[0]
+        if a not in ("none", "") and b != a and (op[0] != "step") and not ((op[0] == "ozg" or (kind == "ghost" and op[0] == "fwdbwd")) and st[i]["ls"] == "0"):  # ghost's backward runs optimizer.zero_grad between its passes
+            return (f"C11:accumulated-dropped:{kind}", f"{kind} optimizer: op #{i} {op} changed the accumulated (clipped, not yet released) gradients from tokens [{a}] to [{b}]",
+                    {"ops": ops, "cfg": cfg})
     outs = [EC.parse_line(l)["out"] for l in real[1:]]
     # reuse must raise (standard optimizers)
     if kind == "std":
